@@ -4,4 +4,5 @@ From Coq Require Extraction ExtrOcamlBasic ExtrOcamlZBigInt.
 From Verif Require Import Lib.Bytes Model.KeyFormat.
 Extraction Language OCaml.
 Extraction "../ocaml/c12_model.ml" bz zb lib_get_key_format lib_wif_prefix_search lib_networks_by_wif
-  find_network lib_network_wif_prefix lib_key_import lib_hdkey_import lib_hdkey_from_wif lib_wif lib_xkey.
+  find_network lib_network_wif_prefix lib_key_import lib_hdkey_import lib_hdkey_from_wif lib_wif lib_xkey
+  lib_wif_with lib_xkey_with km_constructible network_defined ss_init sop_answer sop_step session session_states session_final.
